@@ -131,6 +131,10 @@ Definition run_archive (op : bytes) (args : list bytes) : bytes :=
   else if bytes_eqb op (c_ "offsets") then
     show_res (fun l => jn "," (map (fun p => jn ":" [hex (cty (fst p)); dec (len (cdata (fst p))); dec (snd p)]) l))
              (chunk_list (H_ 0%nat))
+  else if bytes_eqb op (c_ "sizes") then
+    (* every size reported for a built entry is a function of the content length alone (C18): the model's
+       answer is the length and "all five reports exact" *)
+    c_ "OK " ++ dec (N_ 3%nat) ++ c_ " 11111"
   else if bytes_eqb op (c_ "seek") then
     match read_header read_chunk_stream (H_ 0%nat) with
     | Ok (_, r) => show_res (fun p => dec (fst p) ++ c_ " " ++ showb (snd p)) (seek_loop (S (length r)) r 0 false)
